@@ -546,7 +546,7 @@ func TestC10(t *testing.T) {
 func raceProp(t *testing.T, prop, test string, gen func(*rapid.T) *Scenario) {
 	rapid.Check(t, func(rt *rapid.T) {
 		sc := gen(rt)
-		sc.Script, sc.Gated, sc.NoFinish = nil, false, false
+		sc.Script, sc.Gated, sc.NoFinish, sc.PreCancel = nil, false, false, false
 		sc.N = 0
 		if rapid.IntRange(0, 3).Draw(rt, "cancel") == 0 {
 			sc.N = rapid.IntRange(1, 12).Draw(rt, "cancelAfter")
@@ -944,7 +944,7 @@ func TestReplay(t *testing.T) {
 	for a := 0; a < n; a++ {
 		var r Result
 		switch {
-		case sc.Stage == "fork.fold/ref" || sc.Stage == "fold/ref" || strings.HasPrefix(sc.Stage, "deleg/") || strings.HasPrefix(sc.Stage, "reuse/"):
+		case sc.Stage == "fork.fold/ref" || sc.Stage == "fold/ref" || strings.HasPrefix(sc.Stage, "deleg/") || strings.HasPrefix(sc.Stage, "reuse/") || sc.Stage == "unbound/zero-size" || strings.HasPrefix(sc.Stage, "shared/"):
 			f := runFoldRef
 			if sc.Stage == "fold/ref" {
 				f = runPipeFoldRef
@@ -954,6 +954,12 @@ func TestReplay(t *testing.T) {
 			}
 			if strings.HasPrefix(sc.Stage, "reuse/") {
 				f = runReuse
+			}
+			if sc.Stage == "unbound/zero-size" {
+				f = runZeroSize
+			}
+			if strings.HasPrefix(sc.Stage, "shared/") {
+				f = runShared
 			}
 			b := bubble.Run(t, func() { r.Msg = f(&sc) })
 			if r.Msg == "" {
